@@ -20,6 +20,8 @@ pub struct RunOutcome {
     pub op_kinds: Vec<&'static str>,
     pub faults: BTreeMap<String, u64>,
     pub transcript: Vec<String>,
+    /// C07: the crash point at which the violation was observed
+    pub fault: Option<Fault>,
 }
 
 pub fn kind_hash(kind: &str) -> u64 {
@@ -31,6 +33,14 @@ pub fn kind_hash(kind: &str) -> u64 {
 }
 
 pub fn run_spec(prop: Prop, spec: &RunSpec, want_transcript: bool) -> RunOutcome {
+    if prop == Prop::C07 {
+        let seed = splitmix64(spec.ops.len() as u64 ^ spec.cfg.universe as u64);
+        return match spec.cfg.elem {
+            ElemClass::Plain => crate::c07::run_c07::<u32, PVal>(spec, seed),
+            ElemClass::Tracked => crate::c07::run_c07::<TKey, TVal>(spec, seed),
+            ElemClass::Zst => crate::c07::run_c07::<(), ()>(spec, seed),
+        };
+    }
     match spec.cfg.elem {
         ElemClass::Plain => run_generic::<u32, PVal>(prop, spec, want_transcript),
         ElemClass::Tracked => run_generic::<TKey, TVal>(prop, spec, want_transcript),
